@@ -9,6 +9,13 @@ HARNESSES = [dict(name="ha", pkg="./pkg/ha/", test="TestVerifC10", timeout=900,
                   files=[("pkg/ha/zz_verif_c10_test.go", "harness/C10/zz_verif_c10_test.go")])]
 
 
+def _split(case):
+    """(head tokens incl. the optional G2 token, op tokens)"""
+    t = case.split(" ")
+    k = 11 if len(t) > 10 and t[10].startswith("G2:") else 10
+    return t[:k], t[k:]
+
+
 def route(case):
     t = case.split(" ")
     if any(o[:2] in ("pD", "pL", "pS") for o in t[10:]) or (len(case) % 16 == 0 and len(t) < 80):
@@ -58,6 +65,47 @@ def cfg(ida, pa, ra, da, na, idb, pb, rb, db, nb):
 STR_IDS = [("9", "10"), ("10", "9"), ("node-2", "node-10"), ("node-10", "node-2"), ("a", "B"), ("B", "a"),
            ("bng", "bng-1"), ("bng-1", "bng"), ("x", "x"), ("", "n1"), ("n1", ""), ("", ""), ("\u00e9", "z"),
            ("bng-9", "bng-10")]
+
+
+def two_group_cases(rng, quick):
+    out = []
+    g2s = ["G2:100,0,50,1,200,0,50,1", "G2:200,1,50,2,100,0,0,0", "G2:100,0,0,0,100,1,0,0", "G2:200,0,50,1,100,0,50,1"]
+    confs = [cfg(1, 200, 0, 50, 2, 2, 100, 0, 50, 2), cfg("9", 100, 1, 50, 1, "10", 200, 0, 50, 1),
+             cfg(2, 100, 0, 0, 0, 1, 100, 0, 0, 0)]
+    ops = []
+    for w in W:
+        ops += ["st" + w, "sd" + w, "dl%s:0" % w, "d1%s:0" % w, "d2%s:0" % w, "d1%s:1" % w, "d2%s:1" % w, "dr%s:0" % w,
+                "pl" + w, "pt" + w, "sw%s:0" % w, "sw%s:1" % w, "SW%s:0" % w, "SW%s:1" % w, "S1%s:0" % w, "S2%s:1" % w,
+                "S2%s:0" % w, "rs" + w, "dn%s:0" % w, "up%s:0" % w, "dn%s:100" % w, "up%s:100" % w, "de%s:100" % w,
+                "dn%s:1" % w, "dn%s:101" % w]
+    settle = ["sd0", "dl1:9", "dl0:9", "sd1", "dl0:9", "dl1:9"]
+    # every single op and (thorough: every pair) after the warm states, then settle
+    for c in confs:
+        for g in g2s:
+            for k in (1, 2, 3):
+                for o1 in ops:
+                    out.append(" ".join([c, g] + warm(k) + [o1] + settle))
+                if not quick:
+                    for o1 in ops:
+                        for o2 in ops:
+                            out.append(" ".join([c, g] + warm(k) + [o1, o2] + settle))
+    # random walks with partial heartbeats
+    n = 250 if quick else 4000
+    for _ in range(n):
+        c, g = rng.choice(confs), rng.choice(g2s)
+        walk = ["st0", "st1"]
+        for _ in range(rng.randint(20, 120)):
+            r = rng.random()
+            w = rng.choice(W)
+            o = "1" if w == "0" else "0"
+            if r < 0.35:
+                walk += ["sd" + w, rng.choice(["dl", "dl", "d1", "d2"]) + "%s:9" % o, rng.choice(["dl", "dl", "d1", "d2"]) + "%s:9" % w]
+            elif r < 0.5:
+                walk += [rng.choice(["pl", "pt"]) + w, "sd" + o, rng.choice(["dl", "d1", "d2"]) + "%s:9" % w]
+            else:
+                walk.append(rng.choice(ops))
+        out.append(" ".join([c, g] + walk))
+    return out
 
 
 def overlap_cases(rng, quick):
@@ -178,6 +226,9 @@ def gen_cases(rng, tier, budget):
                 cases.append(c + " " + " ".join(warm(k) + ["sd0", "dl1:9", "dl0:9", "sd1", "dl0:9", "dl1:9", "pl0", "pl1",
                                                         "sd1", "dl0:9", "dl1:9", "sd0", "dl1:9", "dl0:9"]))
             cases.append(c + " " + " ".join(random_walk(rng, 1, 60)))
+    # (6) two redundancy groups per Manager (mirrored priorities = active/active deployment), heartbeats that omit
+    #     one group's status, per-group interfaces and switchovers
+    cases += two_group_cases(rng, quick)
     # (5) forced overlaps
     cases += overlap_cases(rng, quick)
     # (3) boundary configurations
@@ -196,13 +247,14 @@ def _steps(line):
 def nontrivial(case, out):
     st = set()
     elect = False
-    for tok in out.split(" ")[1:]:
-        p = tok.split("|")
-        if len(p) != 3:
-            return False
-        st.add((p[0].split(",")[0], p[1].split(",")[0]))
-        if "R>" in p[2]:
-            elect = True
+    for tok2 in out.split(" ")[1:]:
+        for tok in tok2.split("#"):
+            p = tok.split("|")
+            if len(p) != 3:
+                return False
+            st.add((p[0].split(",")[0], p[1].split(",")[0]))
+            if "R>" in p[2]:
+                elect = True
     return elect and len(st) >= 3
 
 
@@ -221,17 +273,20 @@ def classify(case, impl, model):
     if d is None:
         return "G", "no difference"
     i, xi, yi = d
-    ops = case.split(" ")[10:]
+    ops = _split(case)[1]
     op = ops[i - 1] if 0 < i <= len(ops) else "<init>"
     if impl.startswith(("panic", "hang")):
         return "P", "implementation %s" % impl[:200]
 
-    def core(tok):   # state, effective priority, down count, IsActive of both nodes + published transitions
-        p = tok.split("|")
-        if len(p) != 3:
-            return tok
-        pick = lambda n: [n.split(",")[j] for j in (0, 1, 5, 6)] if n.count(",") == 6 else n
-        return (pick(p[0]), pick(p[1]), p[2])
+    def core(tok2):   # state, effective priority, down count, IsActive of both nodes + published transitions
+        r = []
+        for tok in tok2.split("#"):
+            p = tok.split("|")
+            if len(p) != 3:
+                return tok2
+            pick = lambda n: [n.split(",")[j] for j in (0, 1, 5, 6)] if n.count(",") == 6 else n
+            r.append((pick(p[0]), pick(p[1]), p[2]))
+        return r
     if core(xi) == core(yi):
         # only the recorded peer view differs here: look for a later difference in state / priority / events
         x, y = impl.split(" "), model.split(" ")
@@ -247,8 +302,7 @@ def classify(case, impl, model):
 
 
 def shrink(case):
-    t = case.split(" ")
-    head, ops = t[:10], t[10:]
+    head, ops = _split(case)
     n = len(ops)
     # drop chunks, then single ops
     size = n // 2
@@ -268,14 +322,15 @@ def distribution(cases, impl):
     d = {"cases": len(cases), "ops": {}, "pair_states": {}, "transitions": 0, "elections": 0, "max_len": 0,
          "dual_active_steps": 0, "dual_standby_steps": 0, "panics": 0}
     for c, o in zip(cases, impl):
-        ops = c.split(" ")[10:]
+        ops = _split(c)[1]
         d["max_len"] = max(d["max_len"], len(ops))
         for op in ops:
             d["ops"][op[:2]] = d["ops"].get(op[:2], 0) + 1
         if o is None or o.startswith(("panic", "hang", "bad")):
             d["panics"] += 1
             continue
-        for tok in o.split(" "):
+        d["two_group_cases"] = d.get("two_group_cases", 0) + ("#" in o)
+        for tok in o.replace("#", " ").split(" "):
             p = tok.split("|")
             if len(p) != 3:
                 continue
